@@ -1,5 +1,5 @@
 CONSTANTS
-  BASES = {1,3,4,5,6}
+  BASES = {1,4,5}
   BOTH_LE = FALSE
 INIT Init
 NEXT Next
